@@ -10,12 +10,22 @@ __all__ = ["natural_comparison_key"]
 _re_digits = re.compile(r"(\d+)")
 
 
+def _number_key(digits: str) -> tuple[int, str]:
+    """Key that orders strings of digits like the numbers they denote.
+
+    This does not convert the whole string to an int, because that conversion
+    is limited to a maximum number of digits.
+    """
+    number = "".join(str(int(digit)) for digit in digits).lstrip("0")
+    return len(number), number
+
+
 def natural_comparison_key(key: str) -> tuple:
     """Comparison key function for sorting strings by natural sort order.
 
     See: https://en.wikipedia.org/wiki/Natural_sort_order
     """
     return tuple(
-        (int(part), part) if is_digit else part
+        (_number_key(part), part) if is_digit else part
         for part, is_digit in zip(_re_digits.split(key), cycle((False, True)))
     )
